@@ -338,6 +338,7 @@ func (e *Engine) execInstr(st *State, fr *frame, instr ssa.Instruction) {
 		p := e.val(st, ins.Addr).(PtrV)
 		e.checkNil(st, p, ins.Pos())
 		e.checkWrite(st, p, ins.Pos())
+		e.checkInitOnlyStore(st, ins, p)
 		e.store(st, p, ins.Val.Type(), e.val(st, ins.Val))
 	case *ssa.UnOp:
 		st.env[ins] = e.unop(st, ins)
